@@ -284,6 +284,25 @@ func runC03(ctx *harness.Ctx) {
 			}
 		}
 	})
+	ctx.Leg("error-sites", func() {
+		for i, src := range errorSiteVariants() {
+			if i%ctx.Of == ctx.Shard {
+				c03All(ctx, nil, "error-sites", src)
+			}
+		}
+	})
+	ctx.Leg("broken-pairs", func() {
+		idx := 0
+		for _, f1 := range brokenFragments {
+			for _, f2 := range brokenFragments {
+				idx++
+				if idx%ctx.Of != ctx.Shard {
+					continue
+				}
+				c03All(ctx, nil, "broken-pairs", f1+[]string{"; ", ", ", "\n;\n"}[idx%3]+f2)
+			}
+		}
+	})
 	// (a) byte soups
 	ctx.Rapid("soup", ctx.Pick(3000, 40000), func(t *rapid.T) {
 		src := mutate.Soup(t, 24)
